@@ -339,10 +339,11 @@ func (r *Run) Finish() int {
 		"unresolved":         r.unresolved,
 		"exhaustive":         false,
 	}
-	if r.P != nil && r.P.Inline != nil && (len(r.P.Inline.Inlined) > 0 || len(r.P.Inline.Fallback) > 0 || len(r.P.Inline.Declined) > 0) {
+	if r.P != nil && r.P.Inline != nil && (len(r.P.Inline.Inlined) > 0 || len(r.P.Inline.Fallback) > 0 || len(r.P.Inline.Declined) > 0 || len(r.P.Inline.Scalarised) > 0) {
 		cov["helper_inlining"] = map[string]interface{}{
 			"inlined": r.P.Inline.Inlined, "declined": r.P.Inline.Declined, "removed_helpers": r.P.Inline.Removed, "fallback": r.P.Inline.Fallback,
-			"note": "functions outside the baseline inventory are expanded into their callers before SSA construction (internal/inline)",
+			"scalarised": r.P.Inline.Scalarised,
+			"note":       "functions outside the baseline inventory are expanded into their callers before SSA construction (internal/inline)",
 		}
 	}
 	for k, v := range r.Extra {
